@@ -495,16 +495,25 @@ Proof.
     assert (Hgen : forall o0,
       sim s o
         (match (match o0 with OMul => mul_rewrite x y m t | _ => None end) with
-         | Some e' => eA e' E
+         | Some (operand, e') =>
+             mbind (eA operand E) (fun '(w, E1) => mbind (lift_res (env_let (env_push E1) MUL_TMP w)) (fun E2 =>
+             mbind (eA e' E2) (fun '(r, E3) => mbind (lift_res (env_pop E3)) (fun E4 => ret (r, E4)))))
          | None => mbind (eA x E) (fun '(xw, E1) => mbind (eA y E1) (fun '(yw, E2) =>
                    mbind (lower_binop bops o0 t (e_ty x) (e_ty y) xw yw m) (fun r => ret (r, E2))))
          end)
         (match (match o0 with OMul => mul_rewrite x y m t | _ => None end) with
-         | Some e' => eB e' EB
+         | Some (operand, e') =>
+             mbind (eB operand EB) (fun '(w, E1) => mbind (lift_res (env_let (env_push E1) MUL_TMP w)) (fun E2 =>
+             mbind (eB e' E2) (fun '(r, E3) => mbind (lift_res (env_pop E3)) (fun E4 => ret (r, E4)))))
          | None => mbind (eB x EB) (fun '(xw, E1) => mbind (eB y E1) (fun '(yw, E2) =>
                    mbind (lower_binop tops o0 t (e_ty x) (e_ty y) xw yw m) (fun r => ret (r, E2))))
          end) Rres).
-    { intro o0. destruct (match o0 with OMul => mul_rewrite x y m t | _ => None end) as [e'|]; [eapply He; eauto|].
+    { intro o0. destruct (match o0 with OMul => mul_rewrite x y m t | _ => None end) as [[operand e']|].
+      { scall He as w E1 vw EB1 Hw HE1.
+        eapply sim_bind with (R := fun s' r v => RE s' r v).
+        { apply sim_lift; [assumption|]. intros yb Eb. eapply rel_env_let; eauto. apply rel_env_push. assumption. }
+        snext as E2 EB2 HE2. scall He as r E3 vr EB3 Hr HE3. sbindn sim_env_pop as E4 EB4 HE4.
+        apply sim_ret; [assumption|]. split; assumption. }
       scall He as xw E1 vxw EB1 Hxw HE1. scall He as yw E2 vyw EB2 Hyw HE2.
       sbindn sim_lower_binop as r vr Hr. apply sim_ret; [assumption|]. split; assumption. }
     assert (Hsh : forall left,
